@@ -52,7 +52,7 @@ def check(tier, seed):
         for l, (tag, want), o in zip(lines, meta, outs):
             rep.evaluations += 1
             rep.count(f'{prof} {tag}')
-            m = re.fullmatch(r'size=(\d+) nonzero_before=(\d+) nonzero_after=(\d+)', o)
+            m = re.fullmatch(r'size=(\d+) nonzero_before=(\d+) nonzero_after=(\d+)(?: at_offset=\d+)?', o)
             if not m:
                 rep.violation('implementation-vs-oracle', [l], {'profile': prof, 'output': o[:200], 'oracle': 'drop_check must run'}, True)
                 continue
@@ -70,7 +70,7 @@ def check(tier, seed):
         'explanation': 'Lean side: over the declaration inventory regenerated from src/types.rs, every struct reachable from the key types derives Zeroize and ZeroizeOnDrop, skips no field, has only '
                        'u8 / i32 / struct-array leaves, and for all K, L the fields tile the object (size = sum of field sizes = 128 + 1024 (l + 2k) resp. 96 + 1024 k, a multiple of the alignment 8), '
                        'so no byte lies outside a zeroised field. Observed side (not modelled: the zeroize derive, the compiler): each key object is moved into ManuallyDrop in a heap slot, dropped in place, '
-                       'and all size_of bytes are read back with volatile reads: zero non-zero bytes after the drop, size_of equal to the model layout, in both build profiles, for generated / round-tripped / '
+                       'and all size_of bytes are read back with volatile reads, at each of the eight placements 0, 8, .., 56 bytes from a 64-byte boundary: zero non-zero bytes after the drop, size_of equal to the model layout, in both build profiles, for generated / round-tripped / '
                        'deserialised / derived keys of all three sets.',
         'rule': 'one observation per (profile, set, key type, provenance, seed); non-trivial = the object held at least size/3 non-zero bytes before the drop',
         'exhaustive': False},
